@@ -40,9 +40,14 @@ func scratchRoot() string {
 
 // workerEnv: a single P and a single malloc arena from process start, so that the
 // 1 GiB address-space limit is not eaten by thread stacks and per-thread arenas
-// (pthread_create fails under RLIMIT_AS otherwise).
+// (pthread_create fails under RLIMIT_AS otherwise). Of the 1 GiB about 740 MiB
+// are address-space reservations of the Go runtime itself, which leaves ~290 MiB
+// of heap. The concurrent collector lets the heap balloon when the machine is
+// oversubscribed (allocation continues while a cycle waits for the processor),
+// so workers collect synchronously at their own safe points instead (collectIfNeeded)
+// with the runtime's memory limit as a backstop.
 func workerEnv() []string {
-	return []string{"C10_SCRATCH=" + scratchRoot(), "GOMAXPROCS=1", "MALLOC_ARENA_MAX=1", "GOTRACEBACK=single"}
+	return []string{"C10_SCRATCH=" + scratchRoot(), "GOMAXPROCS=1", "MALLOC_ARENA_MAX=1", "GOTRACEBACK=single", "GOGC=off", "GOMEMLIMIT=192MiB"}
 }
 
 var seeds []*seed
@@ -152,6 +157,10 @@ func noteViolation(rest, sig string, n int) {
 }
 
 func work(item string, sub *evid.Run) {
+	defer func() {
+		totalAlloc(&memAfter)
+		collectIfNeeded(&memAfter)
+	}()
 	if os.Getenv("C10_VERBOSE") != "" {
 		t := time.Now()
 		defer func() {
@@ -267,6 +276,7 @@ func magicBatch(rest string, sub *evid.Run) {
 		if totalAlloc(&memAfter)-before > allocLimit(4) {
 			bad = true
 		}
+		collectIfNeeded(&memAfter)
 		if bad {
 			for _, d := range group {
 				item := fmt.Sprintf("x|%d|%x", mi, d[4:])
@@ -441,7 +451,8 @@ func (c *coord) onCrash(item, tail string, timedOut bool) (sigOut string, msgOut
 	}
 	sig, where, summary := crashSignature(tail, timedOut, stepLine)
 	c.mu.Lock()
-	known := sig != "" && c.confirmed[sig] && !strings.Contains(sig, "unknown-site") && !timedOut
+	// deaths by accumulation / timeouts are always re-examined in a fresh process
+	known := sig != "" && c.confirmed[sig] && !strings.Contains(sig, "unknown-site") && !timedOut && !strings.Contains(sig, "/nonterminating/")
 	c.mu.Unlock()
 	if !known {
 		cr := runChild(item, itemTimeout, false)
@@ -486,9 +497,17 @@ func (c *coord) onCrash(item, tail string, timedOut bool) (sigOut string, msgOut
 
 // fanout runs the items on worker subprocesses, in chunks, so that every
 // worker process lives for a bounded number of items (fresh address space).
-func (c *coord) fanout(items []string) {
+func (c *coord) fanout(items []string) { c.fanoutBudget(items, false) }
+
+// fanoutBudget stops between chunks when the time budget is used up (budgeted
+// stages only) and returns the number of items that were executed.
+func (c *coord) fanoutBudget(items []string, budgeted bool) int {
 	const chunk = 12000
+	done := 0
 	for len(items) > 0 {
+		if budgeted && c.r.Expired() {
+			return done
+		}
 		n := min(chunk, len(items))
 		if os.Getenv("C10_VERBOSE") != "" {
 			fmt.Fprintf(os.Stderr, "c10 [%5.1fs] chunk of %d items starting with %s\n", time.Since(t0).Seconds(), n, items[0])
@@ -496,7 +515,9 @@ func (c *coord) fanout(items []string) {
 		c.r.Fanout(items[:n], evid.FanoutOpts{ItemTimeout: itemTimeout, MemLimitMB: memLimitMB, OnCrash: c.onCrash,
 			Env: workerEnv()}, work)
 		items = items[n:]
+		done += n
 	}
+	return done
 }
 
 type violRec struct {
@@ -780,11 +801,14 @@ func main() {
 					}
 				}
 			}
-			infos[si].Pairs = int64(len(pitems))
 			logf("stage 3: seed %s: %d pairs (%d dominated pairs skipped)", s.Name, len(pitems), infos[si].Skipped)
-			r.Add("pair_cases", int64(len(pitems)))
+			done := c.fanoutBudget(pitems, true)
+			infos[si].Pairs = int64(done)
+			r.Add("pair_cases", int64(done))
 			r.Add("pairs_dominated_skipped", infos[si].Skipped)
-			c.fanout(pitems)
+			if done < len(pitems) {
+				r.NotExhaustive(fmt.Sprintf("time budget reached during the pair enumeration of seed %s: %d of %d pairs executed (in field order); singles, truncations, magic suffixes and the pairs of the earlier seeds are complete", s.Name, done, len(pitems)))
+			}
 		}
 	}
 
